@@ -56,6 +56,11 @@ WRAP = "CommonSubexpression"
 LISTED = ("Sum", "Product", "Quotient", "Power", "Call")     # the operations the statement lists
 COMMUTATIVE = ("Sum", "Product")
 TAGGERS = ("tag", "hist")
+# other orders of setting up and feeding the histogram tagger's cooperating pair (same oracle,
+# same failure kinds as "hist"): pair constructed before anything is walked; one pair used
+# incrementally for a growing list
+HIST_PROTOCOLS = ("hist-early", "hist-incr")
+PROTOCOL_FAMILIES = ("triples", "wrapped", "wide")
 
 X, Y, ONE, TWO, F = V("x"), V("y"), C(1), C(2), V("f")
 LEAVES = [X, Y, ONE, TWO]
@@ -341,9 +346,22 @@ def run_tagger(tagger, exprs):
         return list(tag_common_subexpressions(exprs))
     from pymbolic.mapper.cse_tagger import CSETagMapper, CSEWalkMapper
     wm = CSEWalkMapper()
-    for e in exprs:
-        wm(e)
-    tm = CSETagMapper(wm)
+    if tagger == "hist":                    # walk everything, then construct the tag mapper
+        for e in exprs:
+            wm(e)
+        tm = CSETagMapper(wm)
+    elif tagger == "hist-early":            # construct the pair first, feed it afterwards
+        tm = CSETagMapper(wm)
+        for e in exprs:
+            wm(e)
+    elif tagger == "hist-incr":             # growing list: tag after every new expression
+        tm = CSETagMapper(wm)
+        for n, e in enumerate(exprs):
+            wm(e)
+            if n + 1 < len(exprs):
+                [tm(e2) for e2 in exprs[:n + 1]]        # intermediate results are discarded
+    else:
+        raise ValueError(tagger)
     return [tm(e) for e in exprs]
 
 
@@ -373,10 +391,11 @@ def rec_counting_cls():
 
 # {{{ Engine A: one list through one tagger
 
-def check_list(specs, tagger, aspects=("shape", "value", "share"), res=None):
+def check_list(specs, tagger, aspects=("shape", "value", "share"), res=None, verdicts=None):
     """-> list of (kind, detail); empty = the property holds on this list."""
     import pymbolic.primitives as p
     out = []
+    lab = tagger.split("-")[0]            # set-up orders of the histogram tagger share its kinds
     try:
         exprs = [build(s) for s in specs]
     except Exception:  # noqa: BLE001
@@ -386,20 +405,27 @@ def check_list(specs, tagger, aspects=("shape", "value", "share"), res=None):
     if res is not None:
         res.evals += 1
     if o[0] == "err":
-        return [(f"{tagger}:raises:{o[1]}", f"{o[1]}: {o[2]}")]
+        return [(f"{lab}:raises:{o[1]}", f"{o[1]}: {o[2]}")]
     tagged = o[1]
     if len(tagged) != len(specs):
-        return [(f"{tagger}:length", f"{len(specs)} expressions in, {len(tagged)} out")]
+        return [(f"{lab}:length", f"{len(specs)} expressions in, {len(tagged)} out")]
     try:
         tspecs = [to_spec(t) for t in tagged]
     except Exception as e:  # noqa: BLE001
-        return [(f"{tagger}:malformed-output", f"{type(e).__name__}: {e}")]
+        return [(f"{lab}:malformed-output", f"{type(e).__name__}: {e}")]
     shown = "[" + ", ".join(show(t) for t in tspecs) + "]"
+    if verdicts is not None:
+        # the verdict is a function of (inputs, outputs): another set-up order of the same tagger
+        # that returns strictly equal outputs is judged once
+        vkey = (lab, tuple(tspecs))
+        if vkey in verdicts:
+            return verdicts[vkey]
+        verdicts[vkey] = out
 
     if "shape" in aspects:
         for i, (s, t) in enumerate(zip(specs, tspecs)):
             if double_wrappers(t) > double_wrappers(s):
-                out.append((f"{tagger}:cse-of-cse",
+                out.append((f"{lab}:cse-of-cse",
                             f"output {i} has a wrapper directly around a wrapper: {show(t)}"))
                 break
 
@@ -413,7 +439,7 @@ def check_list(specs, tagger, aspects=("shape", "value", "share"), res=None):
                     continue                      # not a meaningful environment for this input
                 got = refsem.outcome(refsem.evaluate, t, ctx.value_env(xy))
                 if got[0] != "ok" or not same_value(want[1], got[1]):
-                    out.append((f"{tagger}:value",
+                    out.append((f"{lab}:value",
                                 f"x, y = {xy}: input {i} {show(s)} has value "
                                 f"{refsem.show_outcome(want)}, output {show(t)} has "
                                 f"{refsem.show_outcome(got)}"))
@@ -434,7 +460,7 @@ def check_list(specs, tagger, aspects=("shape", "value", "share"), res=None):
                    if g[0] != "ok" or not same_value(w[1], g[1])]
             if bad:
                 i = bad[0]
-                out.append((f"{tagger}:value-evaluator",
+                out.append((f"{lab}:value-evaluator",
                             f"one evaluator over {shown}: output {i} gives "
                             f"{refsem.show_outcome(gots[i])}, the input's value is "
                             f"{refsem.show_outcome(wants[i])}"))
@@ -454,7 +480,7 @@ def check_list(specs, tagger, aspects=("shape", "value", "share"), res=None):
                         if d[0] == "Call":
                             n_calls += 1
                 if n_calls != len(counter.calls):
-                    out.append((f"{tagger}:call-count",
+                    out.append((f"{lab}:call-count",
                                 f"{n_calls} call nodes went through rec, the environment's "
                                 f"functions were called {len(counter.calls)} times"))
                 classes, forms, asserted = ctx.classes, ctx.forms, ctx.asserted
@@ -466,14 +492,14 @@ def check_list(specs, tagger, aspects=("shape", "value", "share"), res=None):
                         feat = ("commuted-only" if n <= len(forms[d])
                                 else "nested" if any(indirectly_wrapped(t, d) for t in tspecs)
                                 else "repeat")
-                        out.append((f"{tagger}:not-shared:{feat}",
+                        out.append((f"{lab}:not-shared:{feat}",
                                     f"{show(d)} (up to operand order) occurs "
                                     f"{sum(classes[d].values())} times in the input; evaluating "
                                     f"{shown} with one evaluator computes it {n} times"))
                         shared_fail = True
                         break
                     if n == 0:
-                        out.append((f"{tagger}:not-evaluated",
+                        out.append((f"{lab}:not-evaluated",
                                     f"{show(d)} is never evaluated in {shown}"))
                         break
                 if not shared_fail:
@@ -489,7 +515,7 @@ def check_list(specs, tagger, aspects=("shape", "value", "share"), res=None):
                         allowed = sum(1 for c in classes[d].values() if c == 1)
                         if un[d] > allowed:
                             i, n, t = first[d]
-                            out.append((f"{tagger}:not-wrapped",
+                            out.append((f"{lab}:not-wrapped",
                                         f"repeated {show(n)} is neither in nor below a "
                                         f"wrapper in output {i}: {show(t)}"))
                             break
@@ -1203,7 +1229,9 @@ class C12(Check):
         "products incl. repeated operands, and depth-3 trees whose operands come from a core set "
         "containing commuted twins), every ordered triple over a reduced pool (23 / 69), and every "
         "list of 1-3 inputs that already contain wrappers (prefix, scope, nested, beneath and "
-        "around operations; pool 16 / 42), each through BOTH taggers; "
+        "around operations; pool 16 / 42), each through BOTH taggers (triples, pre-wrapped and wide lists additionally through two "
+        "other set-up orders of the histogram tagger's walk/tag pair: pair constructed before "
+        "anything is walked, and one pair used incrementally for a growing list); "
         "value by the reference evaluator on 5 environments, sharing by ONE rec-intercepting "
         "evaluator with call-counting functions, no wrapper around a wrapper. Helpers: both "
         "helpers x every leaf kind, composite kind, wrapped node, object arrays, multivectors x "
@@ -1327,13 +1355,19 @@ class C12(Check):
         only = item[2] if len(item) > 2 else None        # a minimised witness names its tagger
         if ctx_for(specs).asserted or any(n[0] == WRAP for s in specs for n in nodes(s)):
             r.keys.append(specs)
-        for tagger in TAGGERS:
-            if only is not None and tagger != only:
-                continue
-            for kind, detail in check_list(specs, tagger, res=r):
+        taggers = (only,) if only is not None else (
+            TAGGERS + (HIST_PROTOCOLS if family in PROTOCOL_FAMILIES else ()))
+        hist_kinds = set()
+        verdicts = {}
+        for tagger in taggers:
+            for kind, detail in check_list(specs, tagger, res=r, verdicts=verdicts):
+                if tagger == "hist":
+                    hist_kinds.add(kind)
+                elif tagger in HIST_PROTOCOLS and only is None and kind in hist_kinds:
+                    continue        # the same failure as with the standard order: reported once
                 m = minimise(specs, kind, tagger)
                 r.fail(kind, list_signature(kind, m),
-                       f"in [{', '.join(show(s) for s in specs)}]: {detail}",
+                       f"[{tagger}] in [{', '.join(show(s) for s in specs)[:1500]}]: {detail}",
                        witness=("L", m, tagger))
         return r
 
